@@ -365,6 +365,20 @@ def copy_rule(c, all_classes):
             continue
         if isinstance(s, ast.Return) and isinstance(s.value, ast.Name) and s.value.id == newname:
             continue
+        # the same re-copies written as a loop over a constant tuple / list of attribute names (a literal, or a module-level constant):
+        #     for name in NAMES: setattr(new, name, copy(getattr(self, name)))
+        if (isinstance(s, ast.For) and isinstance(s.target, ast.Name) and not s.orelse and len(s.body) == 1 and isinstance(s.body[0], ast.Expr)
+                and ast.unparse(s.body[0].value) == "setattr(%s, %s, copy(getattr(self, %s)))" % (newname, s.target.id, s.target.id)):
+            names = None
+            if isinstance(s.iter, (ast.Tuple, ast.List)) and all(isinstance(e, ast.Constant) and isinstance(e.value, str) for e in s.iter.elts):
+                names = [e.value for e in s.iter.elts]
+            elif isinstance(s.iter, ast.Name):
+                val = getattr(sys.modules.get(c.__module__), s.iter.id, None)
+                if isinstance(val, (tuple, list)) and all(isinstance(x, str) for x in val):
+                    names = list(val)
+            need(names is not None, "__copy__ of %s: loop over %s is not a constant sequence of names" % (c.__name__, ast.unparse(s.iter)))
+            attrs.extend(names)
+            continue
         raise Fail("__copy__ of %s outside the fragment: %s" % (c.__name__, ast.unparse(s)[:80]))
     if base:
         for b in c.__mro__[1:]:
